@@ -285,6 +285,10 @@ def gen_spec(rng):
         spec = {'doc': d, 'slot': rng.randrange(n)}
     nslots = n if 'doc' in spec else 0
     spec['chain'] = [gen_step(rng, nslots) for _ in range(rng.choice([1, 2, 3, 3, 4]))]
+    if rng.random() < .3:
+        # between two applications a NUMBER token inside the current expression is rewritten in place (its value was read
+        # before): .value is the evaluation of the text as it stands now
+        spec['leaf_edits'] = {str(rng.randrange(len(spec['chain']) + 1)): [rng.randrange(8), gen_num(rng)] for _ in range(rng.choice([1, 1, 2]))}
     return spec
 
 
@@ -473,15 +477,38 @@ class Case:
         chain_ok = with_model
         first_tokens = enc_tokens(self.cur.tokens)
         for k, st in enumerate(self.spec['chain']):
+            if self.leaf_edit(k):
+                chain_ok = False       # the model's chain carries no leaf edits; the per-step lines re-dump the tokens
             word = self.step(k, st, with_model)
             if word is None:
                 chain_ok = False
                 break
             chain_words.append(word)
+        if self.leaf_edit(len(self.spec['chain'])):
+            chain_ok = False
         if chain_ok and chain_words:
             # the model carrying its own state through the whole chain: compare the final stage
             exp = [None] * len(chain_words) + [(enc_tokens(self.cur.tokens), sexp(self.cur))]
             self.lines.append(('N ' + first_tokens + ' ' + ' '.join(chain_words), exp, len(chain_words) - 1, 'chain'))
+        return True
+
+    def leaf_edit(self, k):
+        e = self.spec.get('leaf_edits', {}).get(str(k))
+        if not e:
+            return False
+        p, models = _env()
+        nums = [t for t in self.cur.tokens if isinstance(t, models.Number)]
+        if not nums:
+            return False
+        t = nums[e[0] % len(nums)]
+        t.raw_text = e[1]
+        text = text_of(self.cur)
+        real = _try_val(lambda: self.cur.value)
+        ind = _try_val(lambda: independent_eval(text))
+        if ind[0] == 'v' and not (real[0] == 'v' and real[1] == ind[1]):
+            self.fail('C13:value:after-leaf-edit', f'after rewriting a NUMBER token to {e[1]!r} the text is {text!r} (= {ind[1]}) but .value -> {real[1]}', k - 1)
+        elif ind[0] == 'x' and real[0] != 'x':
+            self.fail('C13:value:after-leaf-edit:raise-mismatch', f'{text!r}: .value -> {real}, evaluation -> {ind}', k - 1)
         return True
 
     def step(self, k, st, with_model):
